@@ -324,6 +324,15 @@ class Ctx:
         self.notes = []
         self.generators = {}
         self.proof = None
+        # replay files of earlier runs of this property would be misleading: start clean
+        rd = os.path.join(VERIF, "replays")
+        if os.path.isdir(rd):
+            for fn in os.listdir(rd):
+                if fn.startswith(prop + "_"):
+                    try:
+                        os.remove(os.path.join(rd, fn))
+                    except OSError:
+                        pass
         with open(os.path.join(VERIF, "known_findings.json")) as f:
             self.known = [k for k in json.load(f)["findings"] if k["property"] == prop]
 
